@@ -48,7 +48,13 @@ def h_partition_at(P):
     for v in sv:
         m.assume(v >= prev, v <= 2 ** 62)
         prev = v
-    this = m.record('ipa', {0: (NULL, 8), 8: (parts, 8), 16: (Ptr('parts', z3.BitVecVal(2 * P, 64)), 8), 24: (Ptr('parts', z3.BitVecVal(2 * P, 64)), 8),
+    # vptr -> address point of the class vtable (virtual start()/stop() may be called)
+    from .llbmc import State
+    from .mharness import module_of
+    st0 = State({}, m.mem, z3.BoolVal(True))
+    vt = m.eng.global_ptr(st0, '@_ZTVN7awkward27IrregularlyPartitionedArrayE', module_of(IPA))
+    vptr = Ptr(vt.obj, 16) if not isinstance(vt.obj, tuple) else NULL
+    this = m.record('ipa', {0: (vptr, 8), 8: (parts, 8), 16: (Ptr('parts', z3.BitVecVal(2 * P, 64)), 8), 24: (Ptr('parts', z3.BitVecVal(2 * P, 64)), 8),
                             32: (stops, 8), 40: (Ptr('stops', z3.BitVecVal(P, 64)), 8), 48: (Ptr('stops', z3.BitVecVal(P, 64)), 8)})
     m.record('pid', {}); m.record('idx', {})
     m.call('_ZNK7awkward27IrregularlyPartitionedArray20partitionid_index_atElRlS1_', [this, at, Ptr('pid', 0), Ptr('idx', 0)])
